@@ -415,3 +415,93 @@ func callEntryUDP(target netip.Addr, port uint16, c *c14Case, delay time.Duratio
 	u := newUDP(target, port, c, delay)
 	return u.Traceroute()
 }
+
+// ---- a driver call that is still in progress when the run's deadline passes ----
+
+type overrunCase struct {
+	Engine    string `json:"engine"`
+	OverrunMs int    `json:"overrun_ms"` // how long after the run's deadline the pending ReceiveProbe call returns (with a genuine reply)
+	MaxTTL    int    `json:"max_ttl"`
+}
+
+type overrunDriver struct {
+	mu       sync.Mutex
+	parallel bool
+	start    time.Time
+	lateAt   time.Duration
+	sent     map[uint8]bool
+	calls    int
+}
+
+func (d *overrunDriver) GetDriverInfo() common.TracerouteDriverInfo {
+	return common.TracerouteDriverInfo{SupportsParallel: d.parallel}
+}
+
+func (d *overrunDriver) SendProbe(ttl uint8) error {
+	d.mu.Lock()
+	d.sent[ttl] = true
+	d.mu.Unlock()
+	return nil
+}
+
+func (d *overrunDriver) ReceiveProbe(timeout time.Duration) (*common.ProbeResponse, error) {
+	d.mu.Lock()
+	d.calls++
+	n := d.calls
+	d.mu.Unlock()
+	switch n {
+	case 1:
+		return &common.ProbeResponse{TTL: 1, IP: netip.MustParseAddr("10.0.0.1"), RTT: time.Millisecond}, nil
+	case 2:
+		// the receiving goroutine is held up (a handle that does not come back at its deadline, a descheduled
+		// thread): the call returns late, with the reply that arrived meanwhile
+		time.Sleep(time.Until(d.start.Add(d.lateAt)))
+		return &common.ProbeResponse{TTL: 2, IP: netip.MustParseAddr("10.0.0.2"), RTT: 2 * time.Millisecond}, nil
+	}
+	time.Sleep(timeout)
+	return nil, &common.ReceiveProbeNoPktError{Err: fmt.Errorf("nothing")}
+}
+
+// TestC14EngineOverrun (real scheduler, race detector): a ReceiveProbe call is still in progress when the run's
+// deadline passes and returns a genuine reply 150 ms .. 1 s later. Whenever the engine hands its result to the
+// caller, nobody may still be writing to it: the caller reads the returned entries for a while after the return.
+func TestC14EngineOverrun(t *testing.T) {
+	rec := NewRecorder("C14", "C14EngineOverrun", "enumeration on the real scheduler under the race detector: both engines with a driver whose second ReceiveProbe call is still in progress when the run's deadline (60 ms) passes and returns a genuine reply 150 / 400 / 1000 ms after it; the caller reads every entry of the returned list for as long again after the call returned; oracle: zero race reports; non-trivial always")
+	rec.Exhaustive = true
+	rec.Assumptions = append(rec.Assumptions, "built with -race; real time")
+	RunCases(t, rec, func(yield func(*overrunCase) bool) {
+		for _, eng := range []string{"parallel", "serial"} {
+			for _, ov := range []int{150, 400, 1000} {
+				if !yield(&overrunCase{Engine: eng, OverrunMs: ov, MaxTTL: 3}) {
+					return
+				}
+			}
+		}
+	}, func(t *testing.T, c *overrunCase, rec *Recorder) []Diff {
+		p := common.TracerouteParams{MinTTL: 1, MaxTTL: uint8(c.MaxTTL), TracerouteTimeout: 50 * time.Millisecond, PollFrequency: 10 * time.Millisecond, SendDelay: time.Millisecond}
+		bound := p.TracerouteTimeout + time.Duration(c.MaxTTL)*p.SendDelay
+		if c.Engine == "serial" {
+			bound = p.TracerouteTimeout // the late call is the first TTL-2 poll: its own window ends 50 ms after that send
+		}
+		drv := &overrunDriver{parallel: c.Engine == "parallel", start: time.Now(), lateAt: bound + time.Duration(c.OverrunMs)*time.Millisecond, sent: map[uint8]bool{}}
+		var res []*common.ProbeResponse
+		if c.Engine == "parallel" {
+			res, _ = common.TracerouteParallel(context.Background(), drv, common.TracerouteParallelParams{TracerouteParams: p})
+		} else {
+			res, _ = common.TracerouteSerial(context.Background(), drv, common.TracerouteSerialParams{TracerouteParams: p})
+		}
+		// the caller goes on using what it was handed
+		until := time.Now().Add(time.Duration(c.OverrunMs)*time.Millisecond + 100*time.Millisecond)
+		n := 0
+		for time.Now().Before(until) {
+			for _, r := range res {
+				if r != nil {
+					n += int(r.TTL)
+				}
+			}
+			time.Sleep(time.Millisecond)
+		}
+		rec.CaseEnumerated(true, map[string]any{"case": c, "entries": len(res), "reads": n}, "engine:"+c.Engine)
+		return nil
+	})
+}
